@@ -704,6 +704,16 @@ fn apply_call(env: &mut Env, call: &Call, out: &mut Outcome, dist: &mut Option<&
                     }
                 }
             }
+            if matches!(cp, Cp::CursorRotate) && *th < created_ids(&hs).len() {
+                // no cursor frame in the thread: there is nothing to rotate
+                let id = thread_id(&hs, *th, p.pick);
+                if !hs.iter().any(|h| h.kind == rip_kernel::StreamKind::Continuity && h.sid == id && h.code == 8) {
+                    noop_by_truth = Some("");
+                    if let Some(d) = dist.as_deref_mut() {
+                        d.bump("cursor_rotate_with_no_cursor_in_the_truth_log");
+                    }
+                }
+            }
             let f = do_cap(env, &hs, *cp, *th, p);
             out.unmodelled |= f.unmodelled;
             silent_req = cp.read_only() || (matches!(cp, Cp::Auto | Cp::AutoSchedule) && (f.dry || f.stride0)) || f.resp_silent;
@@ -817,7 +827,7 @@ fn apply_call(env: &mut Env, call: &Call, out: &mut Outcome, dist: &mut Option<&
                 let n0 = name.split('[').next().unwrap().to_string();
                 let kinds: Vec<&str> = fs.iter().map(|h| ETYPES[h.code as usize]).collect();
                 let class = if derived.is_empty() { format!("nothing_to_do_invocation_appended_{n0}") } else { format!("nothing_to_do_invocation_appended:{derived}") };
-                out.violations.push((format!("{name}: every cut point of the requested stride has a checkpoint in the truth log (nothing to do), yet the call appended {} frame(s): {}{}", fs.len(), kinds.join(", "), if derived.is_empty() { String::new() } else { format!(" [cache state: {derived}]") }), class));
+                out.violations.push((format!("{name}: {} in the truth log (nothing to do), yet the call appended {} frame(s): {}{}", if n0 == "CursorRotate" { "the thread has no provider cursor frame" } else { "every cut point of the requested stride has a checkpoint" }, fs.len(), kinds.join(", "), if derived.is_empty() { String::new() } else { format!(" [cache state: {derived}]") }), class));
             }
             if let Call::Cap { p, cp: Cp::Append(4), .. } = call {
                 if p.big.is_some() && !suffix.is_empty() {
@@ -1143,8 +1153,18 @@ fn noop_fault_cases(thorough: bool) -> Vec<(String, Vec<Call>)> {
     c3.extend(msgs(0, 4));
     c3.push(cap(Cp::AutoSchedule, 0, Params { stride: Some(2), max_new: Some(1), execute: Some(false), ..Default::default() }));
     c3.push(cap(Cp::Auto, 0, Params { stride: Some(2), max_new: Some(33), ..Default::default() }));
+    // frames of 40 kB: every cache file is larger than the 64 KiB window its reader scans from the tail, so a
+    // fault in the MIDDLE of a file lies outside that window (position-dependent detection)
+    let mut big = vec![ensure()];
+    for i in 0..6u64 {
+        big.push(cap(Cp::Append(4), 0, Params { big: Some(40_000), esc: i % 2 == 1, pick: i, ..Default::default() }));
+    }
+    big.push(cap(Cp::Auto, 0, Params { stride: Some(2), max_new: Some(33), ..Default::default() }));
+    // + one message beyond the newest cut point (an off-by-one in an ordinal lookup lands on it)
+    big.push(cap(Cp::Append(4), 0, Params { big: Some(40_000), pick: 6, ..Default::default() }));
     let mut out = vec![];
-    let mut contents = vec![("auto_stride2_6msgs", a, 2u64), ("schedule_stride3_7msgs_cursor", b, 3), ("unrun_job_then_auto_stride2_4msgs", c3, 2)];
+    let (noop_a, noop_b, noop_big) = (a.clone(), b.clone(), big.clone());
+    let mut contents = vec![("auto_stride2_6msgs", a, 2u64), ("schedule_stride3_7msgs_cursor", b, 3), ("unrun_job_then_auto_stride2_4msgs", c3, 2), ("auto_stride2_7msgs_of_40kB", big, 2)];
     if thorough {
         // more cut points than one call looks at: 70 messages, stride 2 = 35 cut points, the planner sees the
         // newest 32 - once those are covered nothing is to do although 3 old cut points have no checkpoint
@@ -1165,6 +1185,10 @@ fn noop_fault_cases(thorough: bool) -> Vec<(String, Vec<Call>)> {
         for file in CFILES {
             let mut c = setup.clone();
             for kind in CKINDS {
+                // (whole-file faults do not depend on the size of the file: the small contents cover them)
+                if cname.ends_with("40kB") && !thorough && matches!(kind, CKind::Deleted | CKind::ZeroLength) {
+                    continue;
+                }
                 for restart in [false, true] {
                     // heal: every cache of the thread removed, then rebuilt from the truth log by reads
                     c.push(Call::Fault { x: Fault::Delete, th: 0 });
@@ -1187,6 +1211,46 @@ fn noop_fault_cases(thorough: bool) -> Vec<(String, Vec<Call>)> {
             }
             c.push(cap(Cp::Append(4), 0, Params::default()));
             out.push((format!("noop_x_cache_fault/{cname}/{}", file.suffix()), c));
+        }
+    }
+    // TWO files damaged at once (a crash in the middle of append_best_effort leaves more than one file
+    // behind; fallbacks of fallbacks are reached only this way): pairs of different files
+    let files2: Vec<CFile> = if thorough { CFILES.to_vec() } else { vec![CFile::Full, CFile::Mr, CFile::MrMsgIdx, CFile::MrOrd, CFile::Comp] };
+    let kinds2: Vec<CKind> = if thorough { CKINDS.to_vec() } else { vec![CKind::Deleted, CKind::TornLastLine, CKind::MidGarbage] };
+    let mut pair_contents = vec![("auto_stride2_7msgs_of_40kB", noop_big.clone(), 2u64)];
+    if thorough {
+        pair_contents.push(("auto_stride2_6msgs", noop_a.clone(), 2));
+        pair_contents.push(("schedule_stride3_7msgs_cursor", noop_b.clone(), 3));
+    }
+    for (cname, setup, stride) in pair_contents {
+        for (i, f1) in files2.iter().enumerate() {
+            let mut c = setup.clone();
+            for f2 in &files2[i + 1..] {
+                for (a1, k1) in kinds2.iter().enumerate() {
+                    for (a2, k2) in kinds2.iter().enumerate() {
+                        c.push(Call::Fault { x: Fault::Delete, th: 0 });
+                        c.push(cap(Cp::Replay, 0, Params::default()));
+                        c.push(cap(Cp::CutPoints, 0, Params { stride: Some(stride), limit: Some(33), ..Default::default() }));
+                        c.push(cap(Cp::CompactionStatus, 0, Params { stride: Some(stride), ..Default::default() }));
+                        c.push(cap(Cp::SelectionStatus, 0, Params::default()));
+                        let probes = [
+                            cap(Cp::Auto, 0, Params { stride: Some(stride), max_new: Some(33), only_if_noop: true, ..Default::default() }),
+                            cap(Cp::AutoSchedule, 0, Params { stride: Some(stride), max_new: Some(33), only_if_noop: true, ..Default::default() }),
+                        ];
+                        for call in probes {
+                            c.push(Call::CacheFault { file: *f1, kind: *k1, th: 0 });
+                            c.push(Call::CacheFault { file: *f2, kind: *k2, th: 0 });
+                            if (a1 + a2) % 2 == 1 {
+                                c.push(Call::Restart);
+                            }
+                            c.push(call);
+                        }
+                    }
+                }
+            }
+            if c.len() > setup.len() {
+                out.push((format!("noop_x_two_cache_faults/{cname}/{}+later_files", f1.suffix()), c));
+            }
         }
     }
     // the known S4 state (C04): the comp sidecar is lost and re-created by the next checkpoint append, so
